@@ -236,7 +236,7 @@ Xml Xml::decode(const String& x)
 			switch (c)
 			{
 			case '>':
-				if (b != elems.top().tag())
+				if (elems.length() < 2 || b != elems.top().tag()) // an end tag with nothing open must not pop the seeded root
 					return Xml();
 				{
 					Xml e = elems.popget();
